@@ -319,6 +319,18 @@ func (mq *memtableQueue) Rotate() {
 	mq.rotateNoLock()
 }
 
+// rotateIfNotEmpty freezes the mutable memtable if it holds any document, so
+// that a following flush persists it. Returns true if a rotation happened.
+func (mq *memtableQueue) rotateIfNotEmpty() bool {
+	mq.mu.Lock()
+	defer mq.mu.Unlock()
+	if mq.mutable.count() == 0 {
+		return false
+	}
+	mq.rotateNoLock()
+	return true
+}
+
 // rotateNoLock performs rotation without acquiring the lock.
 // Must be called with mq.mu held.
 func (mq *memtableQueue) rotateNoLock() {
